@@ -61,10 +61,10 @@ ERROR_EXIT_HANGS = ('error-exit-hangs', {'files': [('f0.c', 'abcdef')], 'rules':
 
 # candidates whose tests start at staggered times around the moment an earlier candidate's (slow) test succeeds: some test has
 # only just been started when the round is decided and everything still running is abandoned
-LATE_STARTERS = ('late-starters', {'files': [('f0.c', 'abcdefghijklmn')], 'timeout': 6, 'slow_s': 0.6,
+LATE_STARTERS = ('late-starters', {'files': [('f0.c', 'abcdefghijklmnopqrs')], 'timeout': 6, 'slow_s': 0.6,
                                    'rules': [([('nothas', 0, 'a')], 'slow0'), ([], 'timeout')],
-                                   'passes': [{'key': 1, 'ops': [('delch', 'a')] + [('wait', round(0.45 + 0.06 * k, 2), k + 1) for k in range(11)], 'aos': 1, 'maxt': 1}],
-                                   'cfg': {'N': 12}})
+                                   'passes': [{'key': 1, 'ops': [('delch', 'a')] + [('wait', round(0.45 + 0.06 * k, 2), k + 1) for k in range(16)], 'aos': 1, 'maxt': 1}],
+                                   'cfg': {'N': 17}})
 
 
 def late_starters(ctx):
